@@ -40,7 +40,7 @@ def gen_cases(tier, seed):
         cuts = sorted(set(int(x) for x in rng.integers(1, nev, size=int(rng.integers(0, 4))))) if nev > 1 else []
         out.append({"cls": ["access-paths", "append-sessions", "file-generator"][i % 3], "nant": nant, "noisy": bool(rng.integers(0, 2)), "opts": opts, "req": req,
                     "plan": h5.plan_events(rng, nev, nant), "cuts": cuts, "append_mode": ["a", "r+"][int(rng.integers(0, 2))],
-                    "n_files": int(rng.integers(1, 4)), "salt": int(rng.integers(0, 2**31))})
+                    "n_files": int(rng.integers(1, 4)), "salt": int(rng.integers(0, 2**31)), "trailing_reject": bool(i % 2)})
     return out
 
 
@@ -50,8 +50,18 @@ def write_file(path, case, ants, plan, cuts=(), mode2="a", index_offset=0):
     model = []
     w = h5.open_writer(path, "w", opts, req, ants)
     i = index_offset
+    def trailing_refusal(k_):
+        # a refused add as the very last call of a session (TypeError kind when triggers are written, otherwise "not an event")
+        if not case.get("trailing_reject"):
+            return True
+        st_ = dict(plan[min(k_, len(plan) - 1)], bad=6 if opts["triggers"] else 5)
+        rec_, _ = h5.do_add(w, ants, st_, 900 + k_, opts, req, only_bad=True)
+        return rec_ != "accepted-bad"
     for k, step in enumerate(plan):
         if k in cuts:
+            if not trailing_refusal(k):
+                w.close()
+                return None
             w.close()
             w = h5.open_writer(path, mode2, opts, req, ants)
         rec, _ = h5.do_add(w, ants, step, i, opts, req)
@@ -60,6 +70,9 @@ def write_file(path, case, ants, plan, cuts=(), mode2="a", index_offset=0):
             return None
         model.append(rec)
         i += 1
+    if not trailing_refusal(len(plan)):
+        w.close()
+        return None
     w.close()
     return model
 
@@ -186,7 +199,7 @@ def run_case(case):
                         thrown += m["thrown"]
                         ok = (len(ps) == len(m["energies"]) and [float(p.energy) for p in ps] == m["energies"] and [p.interaction.kind.name for p in ps] == m["kinds"]
                               and [int(p.id.value) for p in ps] == m["ids"] and [[float(x) for x in p.vertex] for p in ps] == m["vertices"]
-                              and [[float(p.survival_weight), float(p.interaction_weight)] for p in ps] == m["weights"])
+                              and [[float(p.survival_weight), float(p.interaction_weight)] for p in ps] == [w_[:2] for w_ in m["weights"]])     # survival and interaction weight; an explicitly forced total weight is stored but not re-imposed by the generator (noted in DESIGN 8.3)
                         v.check(ok, "file generator replays the stored particles (type, vertex, energy, interaction, weights) in order", event=k, slice_range=sr, files=len(files),
                                 got=[float(p.energy) for p in ps], expected=m["energies"], **cfg)
                     else:
